@@ -25,8 +25,23 @@ R = rho (x) z z^T (z from the Lean model), K(.,.|x,y) = E_(f x, g y) (x) rho; ev
 attribute must hold to 1e-10 and the captured objective must equal Re tr(M_fg rho) (Lean `avgOperator`, recomputed with Fractions).
 Numerically (1e-9) the same for random commuting projective measurements on an entangled tripartite state.
 
+Stream `ext_reps` (scheme A, exact): the arrays stored by `ExtendedNonlocalGame(prob_mat, pred_mat, reps)` for reps = 2, 3 (branch `reps > 1` of
+`__init__`: tensor of prob_mat, odometer over question tuples, np.kron of the 4-axis predicate slices) against the Lean mirror `repGame` / `tensorGame`
+(`c09_rep_game`), entry by entry and exactly (dyadic data, real and complex; the dtype of the stored predicate must keep the imaginary parts);
+unentangled_value(reps) >= unentangled_value(1)^reps on small alphabets (`ext_reps_product_strategy`).
+
+Stream `prog_embedding` (module c09_prog, scheme B feasibility embedding): the cvxpy problems built by the four QuantumHedging programs and by
+optimal_clone's primal_problem / dual_problem (n = 1, 2) are captured; points accepted by the verified Lean checkers (and tensor products of two
+single-shot points: `hedging_reps_product_feasible`, `hedging_reps_dual_product`) must satisfy every captured constraint and reproduce the Lean value as
+the captured objective; negative controls.
+
+Product brackets: for Q = kron(Q1, Q2) with exactly factorised PSD factors (hedging) and for the cloning operator with two repetitions the two-fold
+maximum is bracketed by [v1 v2, w1 w2] from single-shot certificates only (`c09_product2`; theorems `hedge2_product_bracket`, `clone2_product_bracket`);
+toqito's two-repetition values must lie in the bracket.
+
 Tie checks (exact, integer data): toqito's `partial_trace` with the sys/dim arguments the programs use, the code's
-permutation operators, the code's formula for the cloning operator and `avgOperator` against the Lean model."""
+permutation operators, the index lists (`_sys`, `_dim`, `_pperm`, `perm`, `sys`) the code builds for n = 1..3 against `hedgeSys` / `hedgePerm` /
+`cloneSys` / `clonePerm` (`pperm_is_interleaving`), the code's formula for the cloning operator and `avgOperator` against the Lean model."""
 from __future__ import annotations
 
 import itertools
@@ -55,7 +70,10 @@ RULE = ("extended games: referee dimension 2..3, |A|,|B|,|X|,|Y| in 1..3 (at mos
         "presentation: every ExtendedNonlocalGame / QuantumHedging object and every optimal_clone call receives the same values in a freshly drawn presentation "
         "(C / Fortran / strided / permuted-axes memory layout of the 2-D and 6-D arrays; real-valued data as float64, integer-valued data as int64; the cloning states "
         "independently per list element); the objects handed over must be untouched after every method call; unentangled_value and (one in three, n = 1) the hedging "
-        "programs are called a second time on the same object and must return the same value")
+        "programs are called a second time on the same object and must return the same value; "
+        "ext_reps: fixed list of (shape, reps) with reps 2..3, unequal alphabets, d in 2..3, one generic complex and one random real game per shape plus the Pauli-Y projector game "
+        "(reproducer of the float-buffer defect of the reps branch); non-trivial = complex or unequal alphabets; hedge-product: Q = kron(V1 V1^H / 4^k1, V2 V2^H / 4^k2) from random "
+        "integer 4 x r matrices (r in 1..4, real / complex alternating), non-trivial = bracket narrower than 1e-4 and >= 1e-2 away from the trivial bounds; prog_embedding: see c09_prog.py")
 ASSUMPTIONS = [
     "toqito computes with the float inputs it is given; the instance certified is their exact dyadic image (difference <= 1e-15 relative)",
     "all programs are solved by cvxpy's default solver (SCS, eps 1e-4): tolerance 1e-3 on returned values (DESIGN.md 4.4), 2e-3 on primal/dual agreement",
@@ -67,6 +85,9 @@ ASSUMPTIONS = [
     "rational rho differs from rho by <= 1e-16 per entry, hence the tolerance 1e-10 (observed residuals <= 1e-14); the quantum embedding is float linear algebra (tolerance 1e-9)",
     "the cloning operator Q for two repetitions is Q1 (x) Q1 as computed in floating point by the code; the certified instance is the exact image of that float array",
     "the see-saw start unitaries are made reproducible by seeding toqito.rand.random_unitary inside the harness process",
+    "product bracket for cloning with two repetitions: the bracket [v1^2, w1^2] is certified for the exact operator cloneQ(exact dyadic images of states and priors) and its exact "
+    "Kronecker square; the float operator toqito builds differs from it by <= 1e-12 per entry (checked), far below the tolerance 1e-3 on the returned value",
+    "ext_reps: entries of the product game are products of at most three dyadic numbers with numerators below 2^7, hence exact in float64; equality is demanded",
 ]
 TAU = 1e-3  # SCS
 WIDTH_OK = 1e-4
@@ -709,9 +730,33 @@ def work_clone(task, res: Result):
             res.violation(f"certified cloning optimum [{lo:.8f},{hi:.8f}] disagrees with the closed form {val:.8f} (harness or cited value wrong)", {"function": "closed-form", "args": base, "closed": val, "certified": [lo, hi]})
     trq = float(np.trace(Qf).real) / a
     lam = float(np.linalg.eigvalsh(Qf)[-1])
+    # two repetitions through the product theorem: both factors certified by the single-shot checkers (no 64 x 64 certificates)
+    plo = phi = None
+    if n == 2:
+        whyp = []
+        plo, phi, Q1x = clone_product_bracket(drv, states, probs, whyp)
+        okp = plo is not None and phi - plo <= WIDTH_OK
+        if not okp:
+            res.count("uncertified/clone-product:" + ";".join(whyp)[:60])
+            plo = phi = None
+        else:
+            res.count("clone/n2/product-certified")
+            q1f = Q1x.to_float().real
+            if float(np.max(np.abs(Qarr - np.kron(q1f, q1f)))) > 1e-12:
+                res.violation("the operator Q (x) Q built by optimal_clone(num_reps=2) differs from the Kronecker square of the exact single-shot operator by more than 1e-12",
+                              {"function": "optimal_clone", "kind": "Q2", "args": base, "theorem": "clone2_product_bracket (Q = kronE Q1 Q1)"})
+                return
+            if ok and (plo > hi + 1e-9 or phi < lo - 1e-9):
+                res.violation("product bracket and directly certified interval of the two-fold optimum are disjoint (harness error)", {"function": "harness", "args": base, "product": [plo, phi], "certified": [lo, hi]})
+                return
     for name, v in vals.items():
         desc = dict(base, fn="optimal_clone", strategy=(name == "primal"))
-        res.case(desc, ok and trq + 1e-2 <= lo and hi <= min(1.0, b * lam) - 1e-2, f"clone/n{n}/{name}")
+        cl, ch = (lo, hi) if ok else (plo, phi)
+        res.case(desc, cl is not None and trq + 1e-2 <= cl and ch <= min(1.0, b * lam) - 1e-2, f"clone/n{n}/{name}")
+        if plo is not None and not (plo - TAU <= v <= phi + TAU):
+            res.violation(f"optimal_clone(strategy={name == 'primal'}, num_reps=2) = {v:.6f} outside the product bracket [{plo:.6f}, {phi:.6f}] = [v1^2, w1^2] of the certified single-shot optimum",
+                          {"function": "optimal_clone", "args": desc, "impl": v, "certified": [plo, phi], "tau": TAU, "via": "product", "theorem": "clone2_product_bracket / cloning_reps_multiplicative"})
+            continue
         if ok and not (lo - TAU <= v <= hi + TAU):
             res.violation(f"optimal_clone(strategy={name == 'primal'}, num_reps={n}) = {v:.6f} outside the certified optimum [{lo:.6f}, {hi:.6f}]",
                           {"function": "optimal_clone", "args": desc, "impl": v, "certified": [lo, hi], "tau": TAU, "theorem": "cloning_weak_duality / checkHedgeMaxPrimal_sound / checkHedgeMaxDual_sound" + ("" if n == 1 else " via checkHedge*_reindex_sound")})
@@ -722,6 +767,166 @@ def work_clone(task, res: Result):
         if vals["dual"] < s1 ** 2 - 2 * TAU or vals["dual"] > s1 + 2 * TAU:
             res.violation(f"optimal_clone: two-repetition value {vals['dual']:.6f} inconsistent with the single-shot optimum {s1:.6f} (must lie in [s^2, s])", {"function": "optimal_clone", "kind": "reps", "args": base, "values": vals, "single": s1})
 
+
+
+# ------------------------------------------------------------------------------------------------
+# two repetitions through the product theorems (hedge2_product_bracket / clone2_product_bracket): both factors certified by the
+# single-shot checkers, bracket [v1 v2, w1 w2] of the two-fold maximum from the driver op c09_product2
+
+
+def _four_squares(m):
+    """(s1, s2, s3, s4) with s1^2 + s2^2 + s3^2 + s4^2 = m (Lagrange; brute force, m small)"""
+    r = int(np.floor(np.sqrt(m)))
+    for s1 in range(r, -1, -1):
+        for s2 in range(0, s1 + 1):
+            t = m - s1 * s1 - s2 * s2
+            if t < 0:
+                break
+            for s3 in range(0, s2 + 1):
+                u = t - s3 * s3
+                if u < 0:
+                    break
+                s4 = int(round(np.sqrt(u)))
+                if s4 * s4 == u:
+                    return s1, s2, s3, s4
+    raise InfraError(f"no four-square decomposition found for {m}")
+
+
+def _pad_cols(M: DM, n):
+    re = np.zeros((M.re.shape[0], n), dtype=object)
+    im = np.zeros((M.re.shape[0], n), dtype=object)
+    re[...] = 0
+    im[...] = 0
+    k = M.re.shape[1]
+    re[:, :k], im[:, :k] = M.re, M.im
+    return DM(re, im, M.e)
+
+
+def _factor_json(Q: DM, LQ: DM, a, b, why):
+    """single-shot certificate candidates for the exact operator Q (order outputs, inputs): dict for c09_product2, or None"""
+    Qf = Q.to_float()
+    try:
+        refs = ref_points(Qf, a, b, False)
+    except RuntimeError:
+        why.append("ref")
+        return None
+    Xs = repair_primal(refs["Xmax"], a, b)
+    L = chol_factor(Xs.to_float(), bits=44)
+    Yf = refs["Ymax"]
+    Y = DM.from_float((Yf + Yf.conj().T) / 2, 40).herm_part() + DM.eye(b).scale_dy(1, 23)
+    Ld = chol_factor((kron_I(a, Y) - Q).to_float(), bits=44)
+    if L is None or Ld is None:
+        why.append("cholesky")
+        return None
+    return {"Q": Q.json(), "X": Xs.json(), "L": L.json(), "Y": Y.json(), "Ld": Ld.json(), "LQ": LQ.json()}
+
+
+def product_bracket(drv, a, b, Q: DM, f1, f2, why):
+    if f1 is None or f2 is None:
+        return None, None
+    r = drv.ask("c09_product2", {"a": a, "b": b, "Q": Q.json(), "f1": f1, "f2": f2})
+    if "lo" in r:
+        return r["lo"][0] / r["lo"][1], r["hi"][0] / r["hi"][1]
+    why.append("product2:" + r.get("reject", "?"))
+    return None, None
+
+
+def gen_sq_factor(rng, cplx):
+    """PSD 4x4 operator V V^H / 4^k from a random integer matrix V (rank 1..4) with the exact factor V / 2^k"""
+    r = int(rng.integers(1, 5))
+    while True:
+        V = rng.integers(-4, 5, size=(4, r)).astype(complex)
+        if cplx:
+            V = V + 1j * rng.integers(-4, 5, size=(4, r))
+        t = float(np.trace(V @ V.conj().T).real)
+        if t > 0:
+            break
+    k = max(0, int(np.ceil(np.log2(t) / 2)))
+    return {"V": V, "k": k}
+
+
+def _sq_factor_dm(f):
+    V = DM.from_int(f["V"])
+    Q = (V @ V.H()).scale_dy(1, 2 * f["k"])
+    return Q, _pad_cols(V.scale_dy(1, f["k"]), 4)
+
+
+def work_hedge_product(task, res: Result):
+    """QuantumHedging(np.kron(Q1, Q2), 2).max_prob_outcome_a_primal/dual against the bracket of hedge2_product_bracket"""
+    from toqito.nonlocal_games.quantum_hedging import QuantumHedging
+    warnings.filterwarnings("ignore")
+    drv = worker_driver()
+    cplx = task["cplx"]
+    (Q1, LQ1), (Q2, LQ2) = _sq_factor_dm(task["f1"]), _sq_factor_dm(task["f2"])
+    Q1f, Q2f = Q1.to_float(), Q2.to_float()
+    Qf = np.kron(Q1f, Q2f)
+    Qf = Qf if cplx else Qf.real
+    Q0 = DM.exact_float(Qf)
+    base = {"part": "hedge_product", "cplx": cplx, "n": 2, "f1": {"V": _ri(task["f1"]["V"]), "k": task["f1"]["k"]}, "f2": {"V": _ri(task["f2"]["V"]), "k": task["f2"]["k"]}, "pres": task.get("pres")}
+    why = []
+    lo, hi = product_bracket(drv, 2, 2, Q0, _factor_json(Q1, LQ1, 2, 2, why), _factor_json(Q2, LQ2, 2, 2, why), why)
+    ok = lo is not None and hi - lo <= WIDTH_OK
+    if not ok:
+        res.count("uncertified/hedge-product:" + ";".join(why)[:60])
+    prng = call_rng(task.get("pres"), "hedge_product")
+    a_Q = present_nd(prng, np.array(Qf, copy=True))
+    guard = Pure(a_Q)
+    h = QuantumHedging(a_Q, 2)
+    trq = float(np.trace(Qf).real) / 4
+    lam = float(np.linalg.eigvalsh(Q0.to_float())[-1])
+    for name, fn in (("max_prob_outcome_a_primal", h.max_prob_outcome_a_primal), ("max_prob_outcome_a_dual", h.max_prob_outcome_a_dual)):
+        desc = dict(base, fn=name)
+        try:
+            v = float(fn())
+        except (ArithmeticError, ZeroDivisionError):
+            res.case(desc, False, f"hedge-product/{name}/solver-numerical-failure")
+            continue
+        except Exception as e:  # noqa: BLE001
+            res.case(desc, True, f"hedge-product/{name}/raise")
+            res.violation(f"QuantumHedging.{name} (n=2, Q = kron(Q1, Q2)) raises {type(e).__name__}: {str(e)[:120]}", {"function": name, "args": desc, "exception": f"{type(e).__name__}: {str(e)[:300]}"})
+            continue
+        if guard is not None and guard.modified() is not None:
+            res.violation(f"QuantumHedging.{name}: caller's arguments were modified ({guard.modified()})", {"function": name, "args": desc, "modified": guard.modified(), "check": "purity"})
+            guard = None
+        if not np.isfinite(v):
+            res.case(desc, False, f"hedge-product/{name}/solver-nonfinite")
+            continue
+        res.case(desc, bool(ok and trq + 1e-2 <= lo and hi <= 4 * lam - 1e-2), f"hedge-product/{name}/{'c' if cplx else 'r'}")
+        if ok and not (lo - TAU <= v <= hi + TAU):
+            res.violation(f"QuantumHedging.{name} (n=2, Q = kron(Q1, Q2)) = {v:.6f} outside the product bracket [{lo:.6f}, {hi:.6f}] = [v1 v2, w1 w2] of the certified single-shot optima",
+                          {"function": name, "args": desc, "impl": v, "certified": [lo, hi], "tau": TAU, "theorem": "hedge2_product_bracket (hedging_reps_multiplicative)"})
+
+
+def clone_product_bracket(drv, states, probs, why):
+    """bracket of the two-fold counterfeiting optimum for the exact operator Q1 = cloneQ(exact images of the inputs), by clone2_product_bracket"""
+    S = [DM.exact_float(np.asarray(s, dtype=float).reshape(2, 1)) for s in states]
+    cols, Q1 = [], None
+    for s, p in zip(S, probs):
+        t = DM(np.kron(np.kron(s.re, s.re), s.re), np.kron(np.kron(s.im, s.im), s.im) * 0, 3 * s.e)   # real states: t = s (x) s (x) s
+        fp = Fraction(float(p))
+        bb = fp.denominator.bit_length() - 1
+        m = fp.numerator
+        if bb % 2:
+            m, bb = 2 * m, bb + 1
+        if m == 0:
+            continue
+        s1, s2, s3, s4 = _four_squares(m)
+        for (cr, ci) in ((s1, s2), (s3, s4)):
+            if cr == 0 and ci == 0:
+                continue
+            cols.append(DM(t.re * cr, t.re * ci, t.e + bb // 2))
+        term = (t @ t.H()).scale_dy(fp.numerator, fp.denominator.bit_length() - 1)
+        Q1 = term if Q1 is None else Q1 + term
+    if Q1 is None or len(cols) > 8:
+        why.append("factor")
+        return None, None, None
+    e = max(c.e for c in cols)
+    LQ = DM(np.concatenate([c.at(e).re for c in cols], axis=1), np.concatenate([c.at(e).im for c in cols], axis=1), e)
+    LQ = _pad_cols(LQ, 8)
+    f = _factor_json(Q1, LQ, 4, 2, why)
+    Q2 = DM(np.kron(Q1.re, Q1.re), np.kron(Q1.re, Q1.im) * 0, 2 * Q1.e)
+    lo, hi = product_bracket(drv, 4, 2, Q2, f, f, why)
+    return lo, hi, Q1
 
 # ------------------------------------------------------------------------------------------------
 # tie checks of the index conventions (exact integer data, in the parent)
@@ -762,6 +967,51 @@ def tie_checks(ctx):
     cp_ = permutation_operator(2, [0, 3, 1, 4, 2, 5])
     Qi = rint(64)
     cmp("clone-n2 pperm Q pperm^H", drv.ask("c09_clone2_reindex", {"M": DM.from_int(Qi).json()}), np.round(cp_ @ Qi @ cp_.conj().T), (64, 64))
+    # the index lists the code builds for n repetitions (QuantumHedging.__init__: _sys, _dim, _pperm; optimal_clone: perm, sys, dim)
+    # against the Lean mirrors hedgeSys / hedgeDim / hedgePerm / cloneSys / clonePerm (theorem pperm_is_interleaving)
+    import importlib
+    oc = importlib.import_module("toqito.state_opt.optimal_clone")
+    for n in (1, 2, 3):
+        lst = drv.ask("c09_index_lists", {"n": n})
+        h = QuantumHedging(np.eye(4 ** n), n)
+        ctx.case({"tie": f"hedge index lists n={n}"}, True, "tie/index-lists")
+        # private attributes: a mismatch means that the implementation no longer has the modelled structure (correspondence break, not a verdict);
+        # the semantic consequences of a wrong list are caught by prog_embedding and by the certified values.  For n = 1 `_pperm` is not modelled.
+        try:
+            want_pp = None if n == 1 else permutation_operator(2, lst["hedge_perm"])
+            same = list(h._sys) == lst["hedge_sys"] and list(h._dim) == lst["hedge_dim"] and (want_pp is None or (np.shape(h._pperm) == np.shape(want_pp) and np.array_equal(np.asarray(h._pperm), want_pp)))
+        except Exception as e:  # noqa: BLE001
+            same = False
+            ctx.broken.append(f"QuantumHedging(., {n}): attributes _sys / _dim / _pperm not available as modelled ({type(e).__name__}: {str(e)[:100]})")
+        if not same:
+            ctx.broken.append(f"QuantumHedging(., {n}): _sys / _dim / _pperm differ from the Lean mirror hedgeSys / hedgeDim / permutation_operator(2, hedgePerm) = {lst['hedge_sys']} / {lst['hedge_perm']}")
+        rec = {}
+        o_pt, o_po = oc.partial_trace, oc.permutation_operator
+
+        def r_pt(x, sys=None, dim=None, *a, **k):
+            rec["sys"], rec["dim"] = list(sys), list(dim)
+            return o_pt(x, sys, dim, *a, **k)
+
+        def r_po(dim, perm, *a, **k):
+            rec["perm"] = [int(t) for t in perm]
+            return o_po(dim, perm, *a, **k)
+        oc.partial_trace, oc.permutation_operator = r_pt, r_po
+        try:
+            e0c, e1c = np.array([[1.0], [0.0]]), np.array([[0.0], [1.0]])
+            for strat in ((True, False) if n <= 2 else (False,)):
+                try:
+                    caps = _capture(lambda: oc.optimal_clone([e0c, e1c], [0.5, 0.5], n, strat))
+                except Exception as e:  # noqa: BLE001  (a raise on valid input is reported by work_clone / prog_embedding)
+                    caps = None
+                    ctx.broken.append(f"optimal_clone(num_reps={n}, strategy={strat}) raises {type(e).__name__} while building its program: {str(e)[:120]}")
+                if caps is not None and len(caps) != 1:
+                    ctx.broken.append(f"optimal_clone(num_reps={n}, strategy={strat}) built {len(caps)} problems")
+        finally:
+            oc.partial_trace, oc.permutation_operator = o_pt, o_po
+        ctx.case({"tie": f"clone index lists n={n}"}, True, "tie/index-lists")
+        bad = (n >= 2 and rec.get("perm") != lst["clone_perm"]) or (n <= 2 and (rec.get("sys") != lst["clone_sys"] or rec.get("dim") != [2] * (3 * n)))
+        if bad:
+            ctx.broken.append(f"optimal_clone(num_reps={n}): perm / sys / dim {rec} differ from the Lean mirror clonePerm / cloneSys {lst['clone_perm']} / {lst['clone_sys']}")
     # the code's formula for the cloning operator on complex integer 'states' (the function itself accepts real states only)
     sts = [(rng.integers(-3, 4, size=(2, 1)) + 1j * rng.integers(-3, 4, size=(2, 1))) for _ in range(3)]
     pr = [0.5, 0.25, 0.25]
@@ -1433,6 +1683,111 @@ def ext_embedding(ctx, quick, prs=None):
     ctx.extra.setdefault("phase_wall_s", {})["ext_embedding"] = round(_t.time() - t0, 1)
 
 
+
+# ------------------------------------------------------------------------------------------------
+# Part 5: stream ext_reps — the product game stored by ExtendedNonlocalGame(prob_mat, pred_mat, reps) (branch reps > 1 of __init__)
+# against the Lean mirror `repGame` / `tensorGame` (exact: dyadic data, products of at most three entries are exact in float64)
+
+REPS_SHAPES = [((2, 2, 2, 2, 2), 2), ((2, 1, 2, 1, 2), 3), ((2, 2, 1, 2, 1), 3), ((3, 2, 2, 1, 2), 2), ((2, 2, 3, 2, 1), 2), ((2, 3, 2, 1, 1), 3),
+               ((3, 1, 2, 2, 2), 2), ((2, 2, 2, 1, 2), 2)]
+REPS_SHAPES_MORE = [((3, 2, 3, 2, 2), 2), ((2, 3, 2, 2, 2), 2), ((2, 2, 2, 1, 1), 3), ((3, 2, 1, 1, 2), 3), ((2, 1, 3, 2, 2), 2), ((3, 3, 3, 1, 1), 2)]
+
+
+def work_reps(task, res: Result):
+    from toqito.nonlocal_games.extended_nonlocal_game import ExtendedNonlocalGame
+    warnings.filterwarnings("ignore")
+    inst, reps = task["inst"], task["reps"]
+    drv = worker_driver()
+    prob, pred = np.asarray(inst["prob"], dtype=float), np.asarray(inst["pred"])
+    d, _, A, B, X, Y = pred.shape
+    base = {"part": "reps", "kind": inst["kind"], "shape": [d, A, B, X, Y], "cplx": inst["cplx"], "reps": reps, "prob": prob.tolist(), "pred": _ri(pred), "pres": inst.get("pres")}
+    prng = call_rng(inst.get("pres"), "reps", reps)
+    a_prob, a_pred = present_nd(prng, prob.copy()), present_nd(prng, pred.copy())
+    guard = Pure(a_prob, a_pred)
+    nontriv = bool(A * B * X * Y >= 2 and (inst["cplx"] or A != B or X != Y))
+    res.case(dict(base, fn="__init__"), nontriv, f"reps/n{reps}/d{d}/{'c' if inst['cplx'] else 'r'}")
+    try:
+        with warnings.catch_warnings(record=True) as wlist:
+            warnings.simplefilter("always")
+            game = ExtendedNonlocalGame(a_prob, a_pred, reps)
+        cast = [str(w.message)[:120] for w in wlist if "discards the imaginary part" in str(w.message)]
+    except Exception as e:  # noqa: BLE001
+        res.violation(f"ExtendedNonlocalGame(prob, pred, reps={reps}) raises {type(e).__name__}: {str(e)[:120]} on a valid game of shape (d,A,B,X,Y)={d, A, B, X, Y}",
+                      {"function": "ExtendedNonlocalGame.__init__(reps)", "args": base, "exception": f"{type(e).__name__}: {str(e)[:300]}", "presentation": describe([a_prob, a_pred])})
+        return
+    if guard.modified() is not None:
+        res.violation(f"ExtendedNonlocalGame.__init__(reps={reps}): caller's arguments were modified ({guard.modified()})",
+                      {"function": "ExtendedNonlocalGame.__init__(reps)", "args": base, "modified": guard.modified(), "presentation": describe([a_prob, a_pred]), "check": "purity"})
+    r = drv.ask("c09_rep_game", dict(game_json(prob, pred), reps=reps))
+    if "reject" in r:
+        raise InfraError(f"driver rejected c09_rep_game: {r}")
+    D, A2, B2, X2, Y2 = r["d"], r["nA"], r["nB"], r["nX"], r["nY"]
+    gp, gq = np.asarray(game.prob_mat), np.asarray(game.pred_mat)
+    if tuple(gq.shape) != (D, D, A2, B2, X2, Y2) or tuple(gp.shape) != (X2, Y2):
+        res.violation(f"ExtendedNonlocalGame(reps={reps}): stored arrays have shapes prob {gp.shape}, pred {gq.shape}; the product game has pred shape {(D, D, A2, B2, X2, Y2)}",
+                      {"function": "ExtendedNonlocalGame.__init__(reps)", "args": base, "impl": [list(gp.shape), list(gq.shape)], "model": [D, D, A2, B2, X2, Y2], "theorem": "repGame / tensorGame"})
+        return
+    lp = np.array([Fraction(a, b) for a, b in r["prob"]], dtype=object).reshape(X2, Y2)
+    fp = np.vectorize(lambda t: Fraction(float(t)), otypes=[object])(gp.real if np.iscomplexobj(gp) else gp)
+    if not np.all(lp == fp):
+        bad = [int(t) for t in np.argwhere(lp != fp)[0]]
+        res.violation(f"ExtendedNonlocalGame(reps={reps}).prob_mat differs from the {reps}-fold Kronecker power of prob_mat at {bad}: {float(fp[tuple(bad)])!r} vs {float(lp[tuple(bad)])!r}",
+                      {"function": "ExtendedNonlocalGame.__init__(reps)", "args": base, "where": bad, "theorem": "repGame (prob)"})
+        return
+    k = 0
+    for a in range(A2):
+        for b in range(B2):
+            for x in range(X2):
+                for y in range(Y2):
+                    lre, lim = _lean_mat({"mat": r["pred"][k]}, D, D)
+                    k += 1
+                    wre, wim = _frac_arr(gq[:, :, a, b, x, y])
+                    if not _same(lre, lim, wre, wim):
+                        res.violation(
+                            f"ExtendedNonlocalGame(reps={reps}).pred_mat[:, :, {a}, {b}, {x}, {y}] differs from the Kronecker product of the single-shot operators with the big-endian digits "
+                            f"of the labels (stored dtype {gq.dtype}; max abs difference {float(np.max(np.abs(gq[:, :, a, b, x, y] - (lre.astype(float) + 1j * lim.astype(float))))):.3g}"
+                            + (f"; numpy warned: {cast[0]}" if cast else "") + ")",
+                            {"function": "ExtendedNonlocalGame.__init__(reps)", "args": base, "where": [a, b, x, y], "stored_dtype": str(gq.dtype), "cast_warnings": cast[:2], "theorem": "repGame / tensorGame (pred)"})
+                        return
+    res.count("reps/arrays-equal")
+    # consistency of the values: product strategies (unentangled value is super-multiplicative)
+    if task.get("values"):
+        try:
+            v1 = float(ExtendedNonlocalGame(prob.copy(), pred.copy()).unentangled_value())
+            vn = float(game.unentangled_value())
+        except Exception as e:  # noqa: BLE001
+            res.violation(f"unentangled_value raises {type(e).__name__} on the {reps}-fold game", {"function": "unentangled_value", "kind": "reps", "args": base, "exception": str(e)[:300]})
+            return
+        res.case(dict(base, fn="unentangled"), nontriv, f"reps/n{reps}/unentangled")
+        if vn < v1 ** reps - 1e-9 or vn > 1 + 1e-9 and v1 <= 1:
+            res.violation(f"unentangled_value of the {reps}-fold game = {vn!r} is below the {reps}-th power {v1 ** reps!r} of the single-shot value {v1!r} (product strategies achieve the power)",
+                          {"function": "unentangled_value", "kind": "reps", "args": base, "values": [v1, vn], "theorem": "avgOperator_tensorGame / unent_tensor_ge_mul"})
+
+
+def reps_tasks(rng, quick):
+    out = []
+    for shape, reps in REPS_SHAPES + ([] if quick else REPS_SHAPES_MORE):
+        d, A, B, X, Y = shape
+        for cplx in (True, False):
+            inst = gen_game_shape(rng, shape, cplx, generic=cplx)
+            pairs = (A ** reps) ** (X ** reps) * (B ** reps) ** (Y ** reps)
+            out.append({"inst": inst, "reps": reps, "values": pairs <= 1024})
+    # the reproducer of the float-buffer defect (fixed upstream): the projector on the +1 eigenvector of Pauli-Y, one question, one answer
+    pc = np.zeros((2, 2, 1, 1, 1, 1), dtype=complex)
+    pc[:, :, 0, 0, 0, 0] = np.array([[0.5, -0.5j], [0.5j, 0.5]])
+    out.insert(0, {"inst": {"kind": "pauli-y-projector", "prob": np.array([[1.0]]), "pred": pc, "cplx": True}, "reps": 2, "values": True})
+    return out
+
+
+def ext_reps(ctx, quick, prs):
+    import time as _t
+    t0 = _t.time()
+    tasks = reps_tasks(prs, quick)
+    for t in tasks:
+        t["inst"].setdefault("pres", int(prs.integers(1, 2 ** 31)))
+    run_pool(ctx, work_reps, tasks)
+    ctx.extra.setdefault("phase_wall_s", {})["ext_reps"] = round(_t.time() - t0, 1)
+
 # ------------------------------------------------------------------------------------------------
 
 
@@ -1501,6 +1856,13 @@ def run(ctx, model_ok=True):
         t["pres"] = int(prs.integers(1, 2 ** 31))
     t0 = _t.time()
     run_pool(ctx, work_hedge, ht)
+    # two repetitions of products Q1 (x) Q2 with exactly factorised factors, through the product theorem (instances from a child stream)
+    prs2 = prs.spawn(1)[0]
+    hp = []
+    for i in range(8 if quick else 60):
+        cplx = bool(i % 2)
+        hp.append({"cplx": cplx, "f1": gen_sq_factor(prs2, cplx), "f2": gen_sq_factor(prs2, cplx), "pres": int(prs2.integers(1, 2 ** 31))})
+    run_pool(ctx, work_hedge_product, hp)
     ctx.extra["phase_wall_s"]["hedging"] = round(_t.time() - t0, 1)
     # ---- cloning
     e0, e1 = np.array([[1.0], [0.0]]), np.array([[0.0], [1.0]])
@@ -1525,6 +1887,11 @@ def run(ctx, model_ok=True):
     ctx.extra["certified_interval_width_bound"] = WIDTH_OK
     # ---- feasibility embedding into the captured NPA / non-signalling programs of extended games
     ext_embedding(ctx, quick, prs)
+    # ---- the product game of ExtendedNonlocalGame(..., reps) against the Lean mirror (draws from the presentation stream only)
+    ext_reps(ctx, quick, prs)
+    # ---- feasibility embedding into the captured hedging / cloning programs (helper module c09_prog; draws from the presentation stream only)
+    from . import c09_prog
+    c09_prog.prog_embedding(ctx, quick, prs)
 
 
 def replay(ctx, rec):
@@ -1546,6 +1913,18 @@ def replay(ctx, rec):
         strat = [(a["f"], a["g"], 0)] if a.get("f") else [([0] * X, [0] * Y, 0)]
         task = {"inst": inst, "k": a.get("k") or 1, "rhos": [rho], "strategies": strat, "quantum_seeds": [a["seed"]] if "seed" in a else []}
         (work_ext_ns if fn.startswith("ext_ns") else work_ext_npa)(task, res)
+    elif part == "prog":
+        from . import c09_prog
+        c09_prog.replay_prog(ctx, rec)
+        return
+    elif part == "hedge_product":
+        work_hedge_product({"cplx": a.get("cplx", False), "f1": {"V": np.asarray(_from_ri(a["f1"]["V"]), dtype=complex), "k": a["f1"]["k"]},
+                            "f2": {"V": np.asarray(_from_ri(a["f2"]["V"]), dtype=complex), "k": a["f2"]["k"]}, "pres": a.get("pres")}, res)
+    elif part == "reps":
+        inst = {"kind": a.get("kind", "replay"), "prob": np.array(a["prob"], dtype=float), "pred": _from_ri(a["pred"]), "cplx": a.get("cplx", False), "pres": a.get("pres")}
+        if inst["cplx"]:
+            inst["pred"] = np.asarray(inst["pred"], dtype=complex)
+        work_reps({"inst": inst, "reps": a["reps"], "values": True}, res)
     elif part == "hedge":
         work_hedge({"kind": a.get("kind", "replay"), "Q": _from_ri(a["Q"]), "n": a["n"], "cplx": a.get("cplx", False), "pres": a.get("pres")}, res)
     elif part == "clone":
